@@ -4,7 +4,7 @@
 # Appends one line per change to seeded/RESULTS-<tier>.tsv.
 tier=$1; par=$2; shift 2
 cd /verif
-dirs=${@:-$(ls -d seeded/C*-[mnpq]*)}
+dirs=${@:-$(ls -d seeded/C*-[mnpqr]*)}
 one() {
   d=$1; tier=$2; id=$(basename $d)
   scratch=/tmp/evalseed-$id
